@@ -163,3 +163,24 @@ contract("ghost:strftime_year_is_civil_year", use_at_calls=False, opaque=["dby"]
 for _q in ("TimePoint.to_calendar_date", "TimePoint.to_ordinal_date",
            "TimePoint.to_week_date", "TimePoint.to_hour_minute_second"):
     contract("data:" + _q, inline=True)
+
+
+def _durtext_cases():
+    from .durtext_t4 import str_case, week_case, mk_parser, _name
+    out = []
+
+    def wrap(b):
+        def build(E, st):
+            env = b(E, st)
+            return {"d": env["self"], "parser": mk_parser(E, st)}
+        return build
+    for mask in range(64):
+        for neg in ((False, True) if mask else (False,)):
+            out.append(Case("%s%s" % ("neg:" if neg else "pos:", _name(mask)),
+                            wrap(str_case(mask, neg))))
+    for neg in (False, True):
+        out.append(Case("%sweeks" % ("neg:" if neg else "pos:"), wrap(week_case(neg))))
+    return out
+
+
+contract("ghost:dur_text_round_trip", use_at_calls=False, cases=_durtext_cases())
